@@ -25,6 +25,7 @@ import (
 	"strconv"
 	"strings"
 	"sync"
+	"sync/atomic"
 	"syscall"
 	"time"
 )
@@ -285,8 +286,6 @@ func Guard(f func()) (panicked bool, msg string, stack string) {
 	return
 }
 
-var frameRe = regexp.MustCompile(`(?m)^(github\.com/ysugimoto/falco/v2/[^\s(]+(?:\([^)]*\)\.[^\s(]+)?)`)
-var funcRe = regexp.MustCompile(`^github\.com/ysugimoto/falco/v2/(\S+?)(?:\(0x[0-9a-f, .]*\)|\(\.\.\.\)|\(\))?$`)
 
 // TopFalcoFrame returns the innermost falco function named in a Go stack trace
 // (package path relative to the module + function), or "" if none.
@@ -692,8 +691,22 @@ func orchestrate(p *Prop, o *opts) int {
 	return conclude(p, o, rep, start)
 }
 
+var confirmedHangs int32
+
 // handleDeath applies the isolated re-run rule.
 func handleDeath(p *Prop, o *opts, rep *Report, c Case, st, stderr string) {
+	if st == "hung" && atomic.LoadInt32(&confirmedHangs) >= 3 {
+		// three watchdog firings were already confirmed by isolated re-runs in this run: later ones are
+		// reported from the first dump (same key family) without spending another 3x budget each
+		k := defaultCrashKey("hung", stderr)
+		if p.CrashKey != nil {
+			if kk := p.CrashKey(c, "hung", stderr); kk != "" {
+				k = kk
+			}
+		}
+		rep.AddViol(Viol{Key: k, What: "worker did not return within the watchdog (isolated re-run skipped: 3 hangs already confirmed in this run)", Detail: map[string]any{"stderr": headTail(stderr, 6000)}}, c)
+		return
+	}
 	tmp := filepath.Join(o.verif, ".build", "tmp")
 	jf, _ := os.CreateTemp(tmp, p.ID+"-journal-*")
 	jf.Close()
@@ -736,6 +749,7 @@ func handleDeath(p *Prop, o *opts, rep *Report, c Case, st, stderr string) {
 		if st2 == "died" {
 			k = keyf("died", stderr2)
 		}
+		atomic.AddInt32(&confirmedHangs, 1)
 		rep.AddViol(Viol{Key: k, What: "worker did not return within the watchdog, again in the isolated re-run (3x budget)", Detail: detail}, c)
 	default: // died
 		detail["rerun_status"] = st2
